@@ -1522,6 +1522,7 @@ pub enum Family {
   DataMap,
   DataTag,
   RecursiveRule,
+  RecursiveChoiceBadLeaf,
   ManyRules,
   ManyChoices,
   LongArray,
@@ -1544,6 +1545,7 @@ pub const FAMILIES: &[Family] = &[
   Family::DataMap,
   Family::DataTag,
   Family::RecursiveRule,
+  Family::RecursiveChoiceBadLeaf,
   Family::ManyRules,
   Family::ManyChoices,
   Family::LongArray,
@@ -1594,6 +1596,15 @@ pub fn family_case(f: Family, n: usize) -> Case {
     Family::DataMap => mk("root = {* tstr => root} / int\n".into(), nest_doc(1, n)),
     Family::DataTag => mk("root = #6.100(root) / int\n".into(), nest_doc(2, n)),
     Family::RecursiveRule => mk("root = [* root] / int\n".into(), nest_doc(0, n)),
+    Family::RecursiveChoiceBadLeaf => {
+      // a natural recursive schema (leaf / node with kids) and a document that is conforming down to a
+      // leaf of the wrong type at depth n: every level's alternatives are retried
+      let mut x = Doc::Map(vec![(Doc::Text("kind".into()), Doc::Text("leaf".into())), (Doc::Text("v".into()), Doc::Text("not-an-int".into()))]);
+      for _ in 0..n {
+        x = Doc::Map(vec![(Doc::Text("kind".into()), Doc::Text("node".into())), (Doc::Text("kids".into()), Doc::Array(vec![x]))]);
+      }
+      mk("root = { kind: \"leaf\", v: int } / { kind: \"node\", kids: [* root] }\n".into(), x)
+    }
     Family::ManyRules => {
       let mut s = String::from("root = [* r0]\n");
       for i in 0..n {
@@ -1792,7 +1803,50 @@ pub fn recursive_case(r: &mut Rng) -> (String, Doc, &'static str) {
   let d = *r.pick(&[1usize, 2, 3, 4, 6, 8, 12, 16, 24, 32, 48, 63]);
   let bad = r.chance(1, 3);
   let leaf = |bad: bool| if bad { Doc::Text("not-an-int".into()) } else { Doc::Int(7) };
-  match r.below(12) {
+  match r.below(17) {
+    12 => {
+      // a group referenced inside an array, extended by a left-recursive //= alternate (BNF style); the
+      // alternate is only tried when the base arm fails at that position
+      let mut x = if bad { Doc::Array(vec![t("x")]) } else { Doc::Array(vec![Doc::Int(1)]) };
+      for _ in 0..d.min(16) {
+        x = Doc::Array(vec![x]);
+      }
+      let doc = match r.below(4) {
+        0 => Doc::Array(vec![]),
+        1 => Doc::Array(vec![Doc::Int(1), t("+"), Doc::Int(2), t("+"), x.clone()]),
+        _ => x,
+      };
+      ("expr = [ terms ]\nterms = ( lhs: term )\nterms //= ( terms, \"+\", term )\nterm = int / expr\n".into(), doc, "left-recursive-group-alternate")
+    }
+    13 => {
+      let n = d.min(40);
+      let mut v: Vec<Doc> = (0..n).map(|i| Doc::Int(i as i128)).collect();
+      if bad {
+        v.push(t("x"));
+      }
+      ("seq = [ items ]\nitems = ( int, ? items )\n".into(), Doc::Array(v), "right-recursive-group")
+    }
+    14 => {
+      let n = d.min(24);
+      let mut v: Vec<Doc> = (0..n).map(|_| t("s")).collect();
+      v.push(if bad { Doc::Null } else { Doc::Int(1) });
+      ("root = [ items ]\nitems //= ( int )\nitems //= ( tstr, items )\n".into(), Doc::Array(v), "group-defined-by-alternates")
+    }
+    15 => {
+      let mut x = leaf(bad);
+      for _ in 0..d {
+        x = Doc::Array(vec![Doc::Int(0), x]);
+      }
+      ("root = val\nval /= int\nval /= [* val]\nval /= nil\n".into(), x, "type-defined-by-alternates")
+    }
+    16 => {
+      let n = d.min(24);
+      let mut v: Vec<Doc> = (0..n).map(|i| Doc::Int(i as i128)).collect();
+      if bad {
+        v.insert(0, t("x"));
+      }
+      ("root = [ $$ext ]\n$$ext //= ( int )\n$$ext //= ( $$ext, int )\n".into(), Doc::Array(v), "left-recursive-socket")
+    }
     0 => {
       let mut x = leaf(bad);
       for _ in 0..d {
@@ -1882,7 +1936,9 @@ pub fn recursive_case(r: &mut Rng) -> (String, Doc, &'static str) {
     }
     10 => {
       let mut x = Doc::Map(vec![(t("kind"), t("leaf")), (t("v"), leaf(bad))]);
-      for _ in 0..d {
+      // with a failing leaf the CBOR validator needs ~1.7^depth steps today (known finding, measured by the
+      // growth series): keep the random phase out of the watchdog
+      for _ in 0..(if bad { d.min(10) } else { d }) {
         x = Doc::Map(vec![(t("kind"), t("node")), (t("kids"), Doc::Array(vec![x.clone(), Doc::Map(vec![(t("kind"), t("leaf")), (t("v"), Doc::Int(1))])]))]);
         if d > 10 {
           // keep the size linear: only one child recurses
